@@ -119,7 +119,7 @@ theorem parseEventsLoop_txt (env : Env) (input : Str) (evs : List (Ev α)) (s c 
 
 def FragsNE (t : Text) : Prop := ∀ f ∈ t.frags, f.text ≠ []
 
-theorem appendFrag_frags (t : Text) (f : Frag) :
+theorem appendFrag_frags_ti (t : Text) (f : Frag) :
     (t.appendFrag f).frags = if f.text.isEmpty = true then t.frags else t.frags ++ [f] := by
   unfold Text.appendFrag
   dsimp only
@@ -127,7 +127,7 @@ theorem appendFrag_frags (t : Text) (f : Frag) :
 
 theorem FragsNE.appendFrag {t : Text} (h : FragsNE t) (f : Frag) : FragsNE (t.appendFrag f) := by
   intro g hg
-  rw [appendFrag_frags] at hg
+  rw [appendFrag_frags_ti] at hg
   split at hg
   · exact h g hg
   · rename_i hne
